@@ -187,6 +187,20 @@ pub fn cases(quick: bool) -> Vec<RosCase> {
                             others: vec![o.clone()],
                             limit: LIMIT,
                         });
+                        v.push(RosCase::ChainSummed {
+                            supply: sup.clone(),
+                            src: src.clone(),
+                            costs: vec![c1 + 1, c2],
+                            others: vec![o.clone()],
+                            limit: LIMIT,
+                        });
+                        v.push(RosCase::ChainSummed {
+                            supply: sup.clone(),
+                            src: src.clone(),
+                            costs: vec![c2, 1, c1],
+                            others: vec![o.clone(), thin[0].clone()],
+                            limit: LIMIT,
+                        });
                     }
                     v.push(RosCase::Chain {
                         supply: sup.clone(),
@@ -286,6 +300,7 @@ pub fn set_limit(c: &RosCase, l: u64) -> RosCase {
         | RosCase::Timer { limit, .. }
         | RosCase::Pp { limit, .. }
         | RosCase::Chain { limit, .. }
+        | RosCase::ChainSummed { limit, .. }
         | RosCase::Sub { limit, .. } => *limit = l,
     }
     c
@@ -296,7 +311,7 @@ pub fn name(c: &RosCase) -> &'static str {
         RosCase::EventSource { .. } => "ros2::rta_event_source",
         RosCase::Timer { .. } => "ros2::rta_timer",
         RosCase::Pp { .. } => "ros2::rta_polling_point_callback",
-        RosCase::Chain { .. } => "ros2::rta_processing_chain",
+        RosCase::Chain { .. } | RosCase::ChainSummed { .. } => "ros2::rta_processing_chain",
         RosCase::Sub { bw: false, .. } => "ros2::rr::rta_subchain",
         RosCase::Sub { bw: true, .. } => "ros2::bw::rta_subchain",
     }
@@ -311,6 +326,7 @@ pub fn analysed(c: &RosCase) -> (ArrSpec, u64) {
         ),
         RosCase::Timer { own, .. } | RosCase::Pp { own, .. } => (own.0.clone(), own.1.wcet()),
         RosCase::Chain { src, costs, .. } => (src.clone(), costs.last().unwrap().wcet()),
+        RosCase::ChainSummed { src, costs, .. } => (src.clone(), *costs.last().unwrap()),
         RosCase::Sub {
             workload, subchain, ..
         } => {
